@@ -2,6 +2,7 @@ mod common;
 mod fixture;
 mod queries;
 mod hops;
+mod provx;
 mod sched;
 mod c01;
 mod c02;
@@ -9,6 +10,7 @@ mod c03;
 mod c04;
 mod c05;
 mod c06;
+mod c07;
 mod c08;
 mod c09;
 mod c10;
@@ -64,6 +66,7 @@ fn main() {
         "c05" => c05::run(opts),
         "c05-worker" => c05::worker(&args[1..]),
         "c06" => c06::run(opts),
+        "c07" => c07::run(opts),
         "c08" => c08::run(opts),
         "c09" => c09::run(opts),
         "c10" => c10::run(opts),
